@@ -3,7 +3,7 @@ import KanidmModel.Privilege
 /-! Driver for C33 (stateful: one world = one account's sessions + the tokens handed out).
 
 * `reset <now>`                                          → `ok`
-* `auth <authtype> <privileged> <anon> <sess> <priv>`    → `token …` | `err <kind>`
+* `auth <authtype> <privileged> <anon> <persist> <sess> <priv>` → `token …` | `err <kind>`
 * `reauth <tok> <rw|verify> <authtype> <sess> <priv>`    → `token …` | `err <kind>`
 * `advance <dt>`                                         → `ok`
 * `use <tok>`                                            → `scope ro|rw|sync` | `err <kind>`
@@ -88,10 +88,10 @@ def handle (w : World) (line : String) : World × String :=
     match nat? now with
     | some now => (World.init now, "ok")
     | none => (w, "bad-op")
-  | ["auth", t, p, a, sess, priv] =>
-    match authType? t, bool? p, bool? a, nat? sess, nat? priv with
-    | some t, some p, some a, some sess, some priv => doStep w (.auth t p a ⟨sess, priv⟩)
-    | _, _, _, _, _ => (w, "bad-op")
+  | ["auth", t, p, a, ps, sess, priv] =>
+    match authType? t, bool? p, bool? a, bool? ps, nat? sess, nat? priv with
+    | some t, some p, some a, some ps, some sess, some priv => doStep w (.auth t p a ps ⟨sess, priv⟩)
+    | _, _, _, _, _, _ => (w, "bad-op")
   | ["reauth", tok, r, t, sess, priv] =>
     match nat? tok, req? r, authType? t, nat? sess, nat? priv with
     | some tok, some r, some t, some sess, some priv => doStep w (.reauth tok r t ⟨sess, priv⟩)
